@@ -1540,3 +1540,8 @@ package zygo
 //@ ghost snapTos := ret0.Stack.tos @after call NewClosing[0]
 //@ ghost snapStack := ret0.Stack @after call NewClosing[0]
 //@ C03 assert snapshot-attached-as-taken @before call SetClosing[0]: snap.Stack == snapStack && snap.Stack.tos == snapTos
+
+// C01: the assign instruction binds a plain symbol itself; only real selectors (array / hash /
+// dotted) reach AssignToSelection, whose symbol version cannot handle a plain symbol
+//@ func (AssignInstr).Execute
+//@ C01 assert a-plain-symbol-is-bound-not-selected @before call AssignToSelection[*]: !typeis(arg0, *SexpSymbol)
